@@ -114,6 +114,9 @@ def cases(tier, rng):
             yield Case("bar.run", ["C", 4, 4, [["set_meter", 4, unit], ["place", C_E, 4]]], "set_meter/large-unit", kind=("meter", 4, unit))
             yield Case("bar.run", ["C", 1, unit, [["value_left"], ["place", C_E, unit], ["remove_last"], ["value_left"]]],
                        "ctor_meter/large-unit", kind=("ctor", 1, unit))
+    # '+' places one beat unit: it fits exactly as long as the total does not exceed the length, however little is left
+    for cnt, unit in ((2, 1024), (3, 2048), (2, 4096), (4, 1024)):
+        yield Case("bar.run", ["C", cnt, unit, [["plus", C_E]] * (cnt + 1)], "plus/tiny-units", kind=("plusfill", cnt))
     # the beat unit as a Python float (8.0 == 8): accepted exactly like the integer
     for cnt, unit in [(4, 4), (6, 8), (3, 2), (5, 16), (2, 1), (4, 3), (4, 6), (7, 128)]:
         yield Case("bar.run", ["C", 4, 4, [["set_meter_f", cnt, unit], ["place", C_E, 4]]], "set_meter/float-unit", kind=("meter", cnt, unit))
@@ -229,6 +232,10 @@ def oracle(c, obs):
                 return "valid meter rejected by the constructor"
             if obs[-1][1] != (F(cnt) / F(unit) if unit else 0):
                 return "bar length is not count/unit"
+            if cnt < 0:
+                for st in obs[:-1]:
+                    if isinstance(st, list) and len(st) == 2 and st[0] is True:
+                        return "a placement was accepted in a bar of negative length"
             for st in obs:
                 stt = st[1] if (isinstance(st, list) and len(st) == 2 and isinstance(st[1], list)) else st
                 if isinstance(stt, list) and len(stt) >= 5 and stt[4] == [] and stt[2] is True:
@@ -277,6 +284,17 @@ def oracle(c, obs):
             return "a placement that fits was not accepted as one new entry"
         if ents[1][1] != 8 or ents[1][2] != kind[1]:
             return "the new entry does not hold the given value and the given notes (got %s)" % (ents[1][1:],)
+        return None
+    if kind[0] == "plusfill":
+        cnt = kind[1]
+        if isinstance(obs, Err):
+            return "raised"
+        for i, st in enumerate(obs[:cnt + 1]):
+            if isinstance(st, Err):
+                return "'+' raised"
+            want = i < cnt
+            if st[0] is not want:
+                return "'+' number %d of a %d-beat bar returned %s (it fits exactly as long as the bar is not over-full)" % (i + 1, cnt, st[0])
         return None
     if kind[0] == "setrest":
         if isinstance(obs, Err):
